@@ -87,7 +87,7 @@ CLAIMED = {
    technique="Coq proof by enumeration of a regenerated lockset/happens-before table + Go race detector runs",
    design="3/C12"),
  "C01": dict(
-   text="Machine-checked proof (CodecRT.v, mutual induction over the value - no bound on depth, widths, string or sequence lengths): C01_roundtrip - for EVERY type environment satisfying the schema conditions env_ok and EVERY well-formed message value (typed per schema, dynamic payloads agreeing with the dispatch table applied to the discriminating sibling, required sequences non-empty, sizes < 2^32, primitives in range) of a structure type with a proper tag, decoding the bytes Encode produced - with anything after them on the stream - yields the normalised value (pointer payload -> value payload, never-encoded fields cleared), consumes exactly the message and leaves no look-ahead; C01_instance_schema_ok - the schema regenerated from /repo satisfies env_ok (tags proper and pairwise distinct per structure, any-tag field last/optional/skipped, every dynamic field discriminated by an earlier Enumeration/Text String sibling, dispatch targets primitives or known structures), re-checked by vm_compute on every run; C01_request_roundtrip / C01_response_roundtrip are the corollaries for this tree. Not yet proved: 're-encoding the decoded value reproduces the identical bytes' (checked per case by the tie). Tie: for every struct type and dispatch entry (paired from the specification's tables, not the code's) well-formed values with boundary primitives are encoded, decoded and re-encoded by the implementation and compared with the extracted model's normalised value and bytes.",
+   text="Machine-checked proof (CodecRT.v, mutual induction over the value - no bound on depth, widths, string or sequence lengths): C01_roundtrip - for EVERY type environment satisfying the schema conditions env_ok and EVERY well-formed message value (typed per schema, dynamic payloads agreeing with the dispatch table applied to the discriminating sibling, required sequences non-empty, sizes < 2^32, primitives in range) of a structure type with a proper tag, decoding the bytes Encode produced - with anything after them on the stream - yields the normalised value (pointer payload -> value payload, never-encoded fields cleared), consumes exactly the message and leaves no look-ahead; C01_instance_schema_ok - the schema regenerated from /repo satisfies env_ok (tags proper and pairwise distinct per structure, any-tag field last/optional/skipped, every dynamic field discriminated by an earlier Enumeration/Text String sibling, dispatch targets primitives or known structures), re-checked by vm_compute on every run; C01_request_roundtrip / C01_response_roundtrip are the corollaries for this tree. C01_reencode_identical - encoding the decoded (normalised) value again reproduces the identical bytes (second mutual induction); C01_wf_checkable - a computable check wf_b implies the hypothesis, and C01_example_wf / C01_example_roundtrips show a non-trivial Create request satisfying it; the evidence counts how many generated values satisfy wf_b on each run. Tie: for every struct type and dispatch entry (paired from the specification's tables, not the code's) well-formed values with boundary primitives are encoded, decoded and re-encoded by the implementation and compared with the extracted model's normalised value and bytes.",
    note="Trusted: Coq kernel; Codec.v hand model of encode.go/decode.go/fields.go tied by correspondence (counts in evidence); reflect/bufio/LimitReader modelled; nil and empty sequences are identified in the value universe (the documented normalisation). The hypothesis wf is exercised by the generator's well-formed mode: the driver reports 'model-roundtrip-fails' if the model itself did not round-trip a generated value.",
    technique="Coq proof (mutual induction over values and schema) of Decode(Encode v) = normalize v + regenerated-schema side conditions by vm_compute + implementation/extracted-model comparison",
    design="3/C01"),
